@@ -222,6 +222,60 @@ func runC15(c *Ctx) {
 		}
 	})
 
+	// ---- digit-string text labels next to (or instead of) the integer labels: "1" is not kty, "4" is not key_ops ----
+	{
+		rr := mon.NewRand(uint64(c.Seed)).Sub(163900)
+		conflicting := map[int64][]*Node{
+			1:  {refcbor.NInt(2), refcbor.NInt(1), refcbor.NInt(4), refcbor.NInt(0)},
+			2:  {refcbor.NBstr([]byte("other-kid")), refcbor.NInt(1)},
+			3:  {refcbor.NInt(-7), refcbor.NInt(-8), refcbor.NInt(-37), refcbor.NTstr("ES256")},
+			4:  {refcbor.NArr(refcbor.NInt(1), refcbor.NInt(2)), refcbor.NArr(refcbor.NInt(1)), refcbor.NArr(refcbor.NInt(2)), refcbor.NArr(refcbor.NInt(3)), refcbor.NArr()},
+			5:  {refcbor.NBstr([]byte("iv")), refcbor.NInt(1)},
+			-1: {refcbor.NInt(1), refcbor.NInt(6), refcbor.NInt(0)},
+			-2: {refcbor.NBstr(make([]byte, 32))},
+			-4: {refcbor.NBstr(make([]byte, 32))},
+		}
+		text := func(l int64) *Node { return refcbor.NTstr(fmt.Sprintf("%d", l)) }
+		for round := 0; round < c.N(3, 40); round++ {
+			for _, key := range gen.ValidKeys(rr) {
+				for li, e := range key {
+					l, ok := e.Label.Int64()
+					if !ok {
+						continue
+					}
+					// (a) the integer label re-spelt as text, value kept
+					moved := append([]gen.KeyEntry{}, key...)
+					moved[li] = gen.KeyEntry{Label: text(l), Value: e.Value}
+					c15judgeWire(rec, refcbor.Encode(gen.KeyMap(moved)), fmt.Sprintf("text-label/%d-respelt-as-text", l), "text-label")
+					// (b) a text twin with another value, before and after the integer label
+					for vi, v := range conflicting[l] {
+						twin := gen.KeyEntry{Label: text(l), Value: v}
+						after := append(append([]gen.KeyEntry{}, key...), twin)
+						before := append([]gen.KeyEntry{twin}, key...)
+						c15judgeWire(rec, refcbor.Encode(gen.KeyMap(after)), fmt.Sprintf("text-label/%d-text-twin-after/%d", l, vi), "text-label")
+						c15judgeWire(rec, refcbor.Encode(gen.KeyMap(before)), fmt.Sprintf("text-label/%d-text-twin-before/%d", l, vi), "text-label")
+					}
+				}
+				// (c) a key_ops restriction under the integer label, a wider one under "4"
+				for _, ops := range [][2]*Node{{refcbor.NArr(refcbor.NInt(2)), refcbor.NArr(refcbor.NInt(1), refcbor.NInt(2))}, {refcbor.NArr(refcbor.NInt(1)), refcbor.NArr(refcbor.NInt(1), refcbor.NInt(2))}, {refcbor.NArr(refcbor.NInt(3)), refcbor.NArr(refcbor.NInt(1), refcbor.NInt(2))}} {
+					var es []gen.KeyEntry
+					for _, e := range key {
+						if l, ok := e.Label.Int64(); ok && l == 4 {
+							continue
+						}
+						es = append(es, e)
+					}
+					for _, order := range []int{0, 1} {
+						a, b := gen.KeyEntry{Label: refcbor.NInt(4), Value: ops[0]}, gen.KeyEntry{Label: text(4), Value: ops[1]}
+						if order == 1 {
+							a, b = b, a
+						}
+						c15judgeWire(rec, refcbor.Encode(gen.KeyMap(append(append([]gen.KeyEntry{}, es...), a, b))), fmt.Sprintf("text-label/key-ops-restricted-int-wide-text/order=%d", order), "text-label")
+					}
+				}
+			}
+		}
+	}
 	// fixed witness of known finding F3, so that it is reported by every run
 	{
 		w := gen.KeyMap([]gen.KeyEntry{{Label: refcbor.NInt(1), Value: refcbor.NInt(4)}, {Label: refcbor.NInt(-1), Value: refcbor.NBstr([]byte("0123456789abcdef"))},
